@@ -44,7 +44,8 @@ class ViewSection(Micheline, prim='view', args_len=4):
         if code.prim in ('CREATE_CONTRACT', 'SET_DELEGATE', 'TRANSFER_TOKENS') and not lambda_:
             raise MichelsonRuntimeError('view', f'{code.prim} is not allowed in views')
 
-        lambda_ |= code.prim in ('LAMBDA', 'lambda')
+        # instructions inside PUSH data can only occur in lambda literals
+        lambda_ |= code.prim in ('LAMBDA', 'LAMBDA_REC', 'PUSH', 'lambda')
         for arg in getattr(code, 'args', ()):
             ViewSection.check_code(arg, lambda_)
 
